@@ -81,6 +81,16 @@ theorem json_carries_tracking :
     (∃ c, c ∈ C12Api.constructors ∧ c.1 = "NodeSet.UnmarshalJSON" ∧
       c.2.2 = ["AddedKinds", "DeletedKinds", "ID", "Kinds", "Properties"]) := by decide
 
+/-- Kind interning is atomic in the source: `graph.StringKind` touches `kindCache` with exactly one call,
+`LoadOrStore` (check and insertion are one step: two goroutines asking for the same new name get the same handle), it is
+the only function that mints `stringKind` values, and `StringsToKinds` goes through it.  Together with the concurrency
+probe of the tie (`intern` op) this is what makes "every Kind is the canonical handle of its name" — the guard of the
+kind theorems — a property of the factory rather than a hypothesis about the caller (Props/C12Heap.lean
+`factory_discharges_canonical_guard`). -/
+theorem string_kind_interns_atomically :
+    C12Api.stringKindCacheCalls = ["LoadOrStore"] ∧ C12Api.stringKindMinters = ["StringKind"] ∧
+    C12Api.stringsToKindsUsesFactory = true := by decide
+
 /-- the struct tags of `graph.Properties` are the tags the model's encoder / decoder use -/
 theorem json_tags_match :
     (C12Api.jsonFields.filter (fun f => f.1 == "Properties")).map (fun f => (f.2.1, f.2.2)) = Dawgs.C12.Props.jsonTags ∧
